@@ -42,6 +42,9 @@ class ConcreteBuilder:
             return default
         return v
 
+    def hint(self, name, values):
+        pass
+
     def int(self, name, lo=None, hi=None):
         v = int(self._get(name, lo if lo is not None else 0))
         if (lo is not None and v < lo) or (hi is not None and v >= hi):
